@@ -46,7 +46,8 @@ Inductive fexc :=
 | XResp (k : ekind) (tag : Z)       (* exception_from_response(the retryable error) *)
 | XOtherError (tag : Z) | XOtherExc (tag : Z) | XUnprepared (tag : Z)
 | XNoHost (errs : list (host * err))
-| XIdMismatch | XKsMismatch | XUnexpected | XAssert | XAttr.
+| XIdMismatch | XKsMismatch | XUnexpected | XAssert | XAttr
+| XShutdown.                        (* ConnectionShutdown: the shut-down session refused the follow-up work *)
 
 Inductive mkind := MOrig (cl : option Z) | MPrepare (qs : Z) (ks : option Z).
 (* why a message was sent (ghost: not observable on the implementation, used by the theorems) *)
@@ -169,11 +170,19 @@ Definition cancel_timer (s : state) : state :=
 Definition fail_with (s : state) (x : fexc) : state := if completed s then cancel_timer s else set_exc s x.
 Definition finish_with (s : state) (r : fres) : state := if completed s then cancel_timer s else set_res s r.
 
+(* The session itself is the pseudo-host -1 of the environment: `SetPool (-1) PShutdown` = Session.shutdown().  ResponseFuture._submit:
+   a shut-down session refuses follow-up work (retry, re-prepare, execute-after-prepare): the request fails with ConnectionShutdown *)
+Definition session_shut (s : state) : bool :=
+  match lookup (pools s) (-1) with Some PShutdown => true | _ => false end.
+
 Definition push_task (s : state) (t : task) : state :=
   {| plan := plan s; consumed := consumed s; pools := pools s; msg_cl := msg_cl s; retries := retries s;
      nconsult := nconsult s; errors := errors s; queue := queue s ++ [t]; attempts := attempts s;
      fin_res := fin_res s; fin_exc := fin_exc s; spec_armed := spec_armed s; spec_left := spec_left s;
      conn_ks := conn_ks s; paging := paging s; page_no := page_no s |}.
+
+Definition submit (s : state) (t : task) : state :=
+  if session_shut s then fail_with s XShutdown else push_task s t.
 
 Definition add_attempt (s : state) (h : host) (prep : bool) : state :=
   {| plan := plan s; consumed := consumed s; pools := pools s; msg_cl := msg_cl s; retries := retries s;
@@ -228,15 +237,19 @@ Definition send_request (s : state) (error_no_hosts : bool) : state * list event
   walk s (plan s) error_no_hosts.
 
 (* ---------------------------------------------------------------- _handle_retry_decision (+ _retry) *)
-Definition bump_retry (s : state) (dcl : option Z) (t : task) : state :=
+Definition bump_counters (s : state) (dcl : option Z) : state :=
   (* self._query_retries += 1 ; _retry: stop if _final_exception, else set the level and submit the task *)
   let keep := is_some (fin_exc s) in
   {| plan := plan s; consumed := consumed s; pools := pools s;
      msg_cl := if keep then msg_cl s else match dcl with Some c => Some c | None => msg_cl s end;
      retries := retries s + 1; nconsult := nconsult s; errors := errors s;
-     queue := if keep then queue s else queue s ++ [t]; attempts := attempts s;
+     queue := queue s; attempts := attempts s;
      fin_res := fin_res s; fin_exc := fin_exc s; spec_armed := spec_armed s; spec_left := spec_left s;
      conn_ks := conn_ks s; paging := paging s; page_no := page_no s |}.
+
+Definition bump_retry (s : state) (dcl : option Z) (t : task) : state :=
+  let s1 := bump_counters s dcl in
+  if is_some (fin_exc s) then s1 else submit s1 t.
 
 Definition handle_decision (s : state) (h : host) (k : ekind) (tag : Z) (d : decision) (dcl : option Z)
   : state * list event :=
@@ -265,7 +278,7 @@ Definition unprep_go (c : config) (s : state) (h : host) (ps : pstmt) : state * 
   let '(_, qs, ks) := ps in
   if negb (uses_ks c) && is_some ks && negb (opt_eqb (conn_ks s) ks)
   then (fail_with s XKsMismatch, [])
-  else (push_task s (TReprepare h qs (if uses_ks c then ks else None)), []).
+  else (submit s (TReprepare h qs (if uses_ks c then ks else None)), []).
 
 Definition unprepared (c : config) (s : state) (h : host) (id tag : Z) : state * list event :=
   match fut_ps c with
@@ -404,7 +417,7 @@ Definition step (c : config) (s : state) (o : op) : state * list event :=
       | Some a =>
           if a_done a then (s, [])
           else let s0 := set_attempts s (mark_done i (attempts s)) in
-               if a_prep a then (push_task s0 (TAfterPrepare (a_host a) r), [])
+               if a_prep a then (submit s0 (TAfterPrepare (a_host a) r), [])
                else if Nat.eqb (a_page a) (page_no s) then set_result c s0 (a_host a) r
                else (s0, [])        (* _set_result_of_page: the answer of an execution of an earlier page fetch is dropped *)
       end
@@ -480,7 +493,7 @@ Definition enc_fexc (x : fexc) : list Z :=
   match x with
   | XResp k tag => [1; enc_kind k; tag] | XOtherError tag => [2; tag] | XOtherExc tag => [3; tag]
   | XUnprepared tag => [4; tag] | XNoHost errs => 5 :: enc_errors errs
-  | XIdMismatch => [6] | XKsMismatch => [7] | XUnexpected => [8] | XAssert => [9] | XAttr => [10]
+  | XIdMismatch => [6] | XKsMismatch => [7] | XUnexpected => [8] | XAssert => [9] | XAttr => [10] | XShutdown => [11]
   end.
 Definition enc_fres (r : fres) : Z := match r with FRows => 0 | FNone => 1 | FMsg => 2 end.
 
